@@ -371,7 +371,8 @@ def plan(tier):
     if tier == "quick":
         strata = [("depth2-full", ATOMS_FULL, [2, 2]), ("depth3-reduced", ATOMS_RED, [2, 1, 2])]
     else:
-        strata = [("depth2-full", ATOMS_FULL, [2, 3]), ("depth2-long", ATOMS_RED, [3, 2]),
+        strata = [("depth2-full", ATOMS_FULL, [2, 2]), ("depth2-full-long-outer", ATOMS_FULL, [3, 1]),
+                  ("depth2-long", ATOMS_RED, [3, 2]),
                   ("depth3-reduced", ATOMS_RED, [2, 2, 1]), ("depth4-reduced", ATOMS_RED[:3], [1, 2, 1, 2])]
     for name, atoms, lens in strata:
         b = bodies(atoms, lens)
